@@ -266,6 +266,29 @@ fn gen_chain(rng: &mut StdRng, abs: &mut Abs, cfg: &Cfg, e: &mut Emit, boost: u6
     }
     for _ in 0..4 { evs.push(Ev::Loop); }
     if shared_from.is_some() && rng.gen_bool(0.5) { evs.push(Ev::Batch(14)); evs.push(Ev::LoopAll); }
+    // beyond the fault model: after the chain, a storable-but-unvotable block Y (round gap without a TC) and then a block X of a
+    // LOWER-or-equal round carrying a TC of the preceding round and the QC of Y: the QC must move the node past X's round
+    if !faithful && rng.gen_bool(0.12) {
+        if let Some(t) = tip.clone() {
+            e.stat("qc_above_block", 1); inadmissible();
+            let signers = cfg.quorum_set(rng, true);
+            let qt = abs.mk_qc(&t, &signers);
+            let ky = t.round + rng.gen_range(3, 6);
+            let ky = { let mut k = ky; while cfg.stakes[cfg.leader(k)] == 0 { k += 1; } k };
+            let y = abs.mk_block(qt, None, ky, vec![]);
+            let qy = abs.mk_qc(&y, &signers);
+            let mut rx = t.round + 2 + rng.gen_range(0, ky - t.round - 1); if rx > ky { rx = ky; }
+            while cfg.stakes[cfg.leader(rx)] == 0 && rx < ky { rx += 1; }
+            if cfg.stakes[cfg.leader(rx)] > 0 {
+                let s2 = cfg.quorum_set(rng, false);
+                let hqs: Vec<(usize, u64)> = s2.iter().map(|&a| (a, t.round)).collect();
+                let tcx = abs.mk_tc(rx - 1, &hqs);
+                let x = abs.mk_block(qy, Some(tcx), rx, vec![]);
+                evs.push(Ev::Propose(y)); if rng.gen_bool(0.3) { evs.push(Ev::Loop); }
+                evs.push(Ev::Propose(x)); evs.push(Ev::LoopAll);
+            }
+        }
+    }
     evs
 }
 
@@ -336,7 +359,7 @@ fn gen_malformed(rng: &mut StdRng, abs: &mut Abs, cfg: &Cfg, e: &mut Emit) -> Ve
     let mut evs = vec![];
     let mut tip: Option<Block> = None;
     let mut round = 0u64;
-    for _ in 0..rng.gen_range(3, 7) {
+    for it in 0..rng.gen_range(3, 7) {
         round += 1; while cfg.stakes[cfg.leader(round)] == 0 { round += 1; }
         let gap = round - tip.as_ref().map(|t| t.round).unwrap_or(0) - 1;
         let signers = cfg.quorum_set(rng, false);
@@ -347,13 +370,18 @@ fn gen_malformed(rng: &mut StdRng, abs: &mut Abs, cfg: &Cfg, e: &mut Emit) -> Ve
         let m = rng.gen_range(0, 16);
         let kind = ["qc_repeat_signer", "qc_nonmember", "qc_subquorum", "qc_sig_transplant_round", "qc_sig_from_timeout", "block_wrong_leader", "block_bad_sig", "block_resigned_field", "tc_repeat_signer", "tc_subquorum", "tc_sig_wrong_hq", "vote_bad", "timeout_bad", "tc_msg_bad", "qc_round0_naming_a_block", "timeout_qc_round0_naming_a_block"][m];
         e.stat(&format!("mut:{}", kind), 1);
+        // sometimes the mutated PROPOSAL also names a batch the node does not have yet, which arrives right after: a block that is
+        // rejected on arrival must not come back through the payload-wait loop-back
+        let late = m <= 5 || m == 14; let late = late && rng.gen_bool(0.35);
+        let pl: Vec<Digest> = if late { e.stat("mutated_proposal_with_late_payload", 1); vec![batch_digest(20 + it as u8)] } else { vec![] };
+        let n_before = evs.len();
         match m {
-            0 if !qc.votes.is_empty() => { let mut q = qc.clone(); let v = q.votes[0].clone(); q.votes.push(v); evs.push(Ev::Propose(abs.mk_block(q, tc.clone(), round, vec![]))); }
-            1 if tip.is_some() => { let mut q = qc.clone(); let t = tip.clone().unwrap(); let s = abs.sign_vote(out, &t.digest(), t.round); q.votes.push((abs.outsider.0, s)); evs.push(Ev::Propose(abs.mk_block(q, tc.clone(), round, vec![]))); }
-            2 if !qc.votes.is_empty() => { let mut q = qc.clone(); q.votes.pop(); evs.push(Ev::Propose(abs.mk_block(q, tc.clone(), round, vec![]))); }
-            3 if tip.is_some() => { let t = tip.clone().unwrap(); let mut q = qc.clone(); let a = abs.id(&q.votes[0].0); q.votes[0].1 = abs.sign_vote(a, &t.digest(), t.round + 1); evs.push(Ev::Propose(abs.mk_block(q, tc.clone(), round, vec![]))); }
-            4 if tip.is_some() => { let t = tip.clone().unwrap(); let mut q = qc.clone(); let a = abs.id(&q.votes[0].0); q.votes[0].1 = abs.sign_timeout(a, t.round, 0); evs.push(Ev::Propose(abs.mk_block(q, tc.clone(), round, vec![]))); }
-            5 => { let a = (cfg.leader(round) + 1) % cfg.n; evs.push(Ev::Propose(abs.mk_block_by(a, qc.clone(), tc.clone(), round, vec![]))); }
+            0 if !qc.votes.is_empty() => { let mut q = qc.clone(); let v = q.votes[0].clone(); q.votes.push(v); evs.push(Ev::Propose(abs.mk_block(q, tc.clone(), round, pl.clone()))); }
+            1 if tip.is_some() => { let mut q = qc.clone(); let t = tip.clone().unwrap(); let s = abs.sign_vote(out, &t.digest(), t.round); q.votes.push((abs.outsider.0, s)); evs.push(Ev::Propose(abs.mk_block(q, tc.clone(), round, pl.clone()))); }
+            2 if !qc.votes.is_empty() => { let mut q = qc.clone(); q.votes.pop(); evs.push(Ev::Propose(abs.mk_block(q, tc.clone(), round, pl.clone()))); }
+            3 if tip.is_some() => { let t = tip.clone().unwrap(); let mut q = qc.clone(); let a = abs.id(&q.votes[0].0); q.votes[0].1 = abs.sign_vote(a, &t.digest(), t.round + 1); evs.push(Ev::Propose(abs.mk_block(q, tc.clone(), round, pl.clone()))); }
+            4 if tip.is_some() => { let t = tip.clone().unwrap(); let mut q = qc.clone(); let a = abs.id(&q.votes[0].0); q.votes[0].1 = abs.sign_timeout(a, t.round, 0); evs.push(Ev::Propose(abs.mk_block(q, tc.clone(), round, pl.clone()))); }
+            5 => { let a = (cfg.leader(round) + 1) % cfg.n; evs.push(Ev::Propose(abs.mk_block_by(a, qc.clone(), tc.clone(), round, pl.clone()))); }
             6 => { let mut b = good.clone(); b.signature = abs.sign_vote(cfg.leader(round), &good.digest(), round); let _ = abs.block(&b); evs.push(Ev::Propose(b)); }
             7 => { let mut b = good.clone(); b.payload.push(batch_digest(7)); let _ = abs.block(&b); evs.push(Ev::Propose(b)); } // payload changed, signature kept
             8 => { let s2 = cfg.quorum_set(rng, false); let mut t = abs.mk_tc(round, &s2.iter().map(|&a| (a, 0)).collect::<Vec<_>>()); let v = t.votes[0].clone(); t.votes.push(v); evs.push(Ev::TC(t)); }
@@ -362,11 +390,12 @@ fn gen_malformed(rng: &mut StdRng, abs: &mut Abs, cfg: &Cfg, e: &mut Emit) -> Ve
             11 => { let a = rng.gen_range(0, cfg.n); let mut v = abs.mk_vote(a, &good); match rng.gen_range(0, 3) { 0 => v.round += 1, 1 => v.author = abs.key((a + 1) % cfg.n).0, _ => v.author = abs.outsider.0 }; evs.push(Ev::Vote(v)); }
             12 => { let a = rng.gen_range(0, cfg.n); let mut t = abs.mk_timeout(a, round, qc.clone()); match rng.gen_range(0, 3) { 0 => t.round += 1, 1 => t.high_qc = QC::genesis(), _ => { if !t.high_qc.votes.is_empty() { t.high_qc.votes.pop(); } else { t.author = abs.outsider.0; } } }; evs.push(Ev::Timeout(t)); }
             // an uncertified "QC" that is not the genesis certificate: round 0 but naming a real block, no votes
-            14 if tip.is_some() => { let t = tip.clone().unwrap(); let q = QC { hash: t.digest(), round: 0, votes: vec![] }; evs.push(Ev::Propose(abs.mk_block(q, tc.clone(), round, vec![]))); }
+            14 if tip.is_some() => { let t = tip.clone().unwrap(); let q = QC { hash: t.digest(), round: 0, votes: vec![] }; evs.push(Ev::Propose(abs.mk_block(q, tc.clone(), round, pl.clone()))); }
             15 if tip.is_some() => { let t = tip.clone().unwrap(); let a = (cfg.me + 1) % cfg.n; let q = QC { hash: t.digest(), round: 0, votes: vec![] }; evs.push(Ev::Timeout(abs.mk_timeout(a, round, q))); }
             13 => { let s2 = cfg.quorum_set(rng, false); let mut t = abs.mk_tc(round, &s2.iter().map(|&a| (a, 0)).collect::<Vec<_>>()); let s = abs.sign_timeout(out, round, 0); t.votes.push((abs.outsider.0, s, 0)); evs.push(Ev::TC(t)); }
             _ => {}
         }
+        if late && evs.len() > n_before { evs.push(Ev::Batch(20 + it as u8)); evs.push(Ev::LoopAll); }
         if rng.gen_bool(0.3) { evs.push(Ev::Timer); }
         evs.push(Ev::Propose(good.clone()));
         evs.push(Ev::Loop);
@@ -410,10 +439,34 @@ fn gen_script(name: &str, abs: &mut Abs, _cfg: &Cfg) -> Vec<Ev> {
             let x = abs.mk_block(q5, Some(t3), 4, vec![batch_digest(13)]);     // round 4, QC of round 5
             vec![Ev::Propose(a6), Ev::Propose(a5), Ev::Propose(a1), Ev::LoopOld, Ev::Batch(13), Ev::Propose(x), Ev::LoopAll]
         }
+        "c03_qc_above_block" => {
+            // a block of round 4 carrying TC(3) and the QC of a stored block of round 5, shown to a node that is still in round 2
+            // (A5 is storable but never votable: a round gap without a TC): the node must move to round 6 on the QC and not vote
+            inadmissible();
+            let a1 = abs.mk_block(QC::genesis(), None, 1, vec![]);
+            let q1 = abs.mk_qc(&a1, &[0, 1, 2]);
+            let a5 = abs.mk_block(q1, None, 5, vec![]);
+            let q5 = abs.mk_qc(&a5, &[0, 1, 2]);
+            let t3 = abs.mk_tc(3, &[(0, 1), (1, 1), (2, 1)]);
+            let x = abs.mk_block(q5, Some(t3), 4, vec![]);
+            vec![Ev::Propose(a1), Ev::Propose(a5), Ev::Propose(x), Ev::LoopAll, Ev::Timer]
+        }
+        "c05_unverified_loopback" => {
+            // a correctly signed round-3 block by the right leader whose QC for A2 has ONE vote (invalid) and whose payload batch is
+            // missing when it arrives; the batch arrives later. The block must have been rejected on arrival: nothing parked, nothing
+            // resumed, and above all no commit of A1 on the strength of an unverified certificate
+            inadmissible();
+            let a1 = abs.mk_block(QC::genesis(), None, 1, vec![]);
+            let q1 = abs.mk_qc(&a1, &[0, 1, 2]);
+            let a2 = abs.mk_block(q1, None, 2, vec![]);
+            let q2bad = abs.mk_qc(&a2, &[0]);
+            let x3 = abs.mk_block(q2bad, None, 3, vec![batch_digest(13)]);
+            vec![Ev::Propose(a1), Ev::Propose(a2), Ev::Propose(x3), Ev::Batch(13), Ev::LoopAll, Ev::Loop]
+        }
         _ => vec![],
     }
 }
-const SCRIPTS: [&str; 5] = ["c02_order", "c02_genesis", "c02_duplicate", "c02_long_gap", "c03_stale_round"];
+const SCRIPTS: [&str; 7] = ["c02_order", "c02_genesis", "c02_duplicate", "c02_long_gap", "c03_stale_round", "c03_qc_above_block", "c05_unverified_loopback"];
 
 // ------------------------------------------------------------------------------------------ the real node
 async fn settle() { for _ in 0..96 { tokio::task::yield_now().await; } }
